@@ -276,49 +276,66 @@ def PrefixReportFull : Prop :=
     ∀ x ∈ out, GoodEntry src x
 
 /-- `"#define X 1\nint x = 1;\n#define Y 2\nint y = 2;\n"` (C), matches `#define X 1\n` (0..12)
-and `#define Y 2\n` (23..35) -/
+and `#define Y 2\n` (23..35): the witness that refuted the statement before /repo 0b29009 -/
 def witnessSrc : Bytes :=
   [0x23, 0x64, 0x65, 0x66, 0x69, 0x6E, 0x65, 0x20, 0x58, 0x20, 0x31, 0x0A,
    0x69, 0x6E, 0x74, 0x20, 0x78, 0x20, 0x3D, 0x20, 0x31, 0x3B, 0x0A,
    0x23, 0x64, 0x65, 0x66, 0x69, 0x6E, 0x65, 0x20, 0x59, 0x20, 0x32, 0x0A,
    0x69, 0x6E, 0x74, 0x20, 0x79, 0x20, 0x3D, 0x20, 0x32, 0x3B, 0x0A]
 
-/-- what the code prints for the witness: `1:#define X 1int x = 1;` and `2:#define Y 2int y = 2;`
-(two file lines glued into one entry; `#define Y 2` is on line 3) -/
+/-- what the repaired code prints for the former witness: the four lines `1:#define X 1`,
+`2:int x = 1;`, `3:#define Y 2`, `4:int y = 2;` (one merged group; lines 2 and 4 are the next
+lines pulled in by `display_context`, see `displayContext_trailing_zero`) — before the repair it
+was `1:#define X 1int x = 1;`, `2:#define Y 2int y = 2;` -/
 theorem witness_output :
     printMatchesWithPrefix witnessSrc 0 0 [(0, 12), (23, 35)] = some [
-      .entry 1 [0x23, 0x64, 0x65, 0x66, 0x69, 0x6E, 0x65, 0x20, 0x58, 0x20, 0x31,
-                0x69, 0x6E, 0x74, 0x20, 0x78, 0x20, 0x3D, 0x20, 0x31, 0x3B],
-      .entry 2 [0x23, 0x64, 0x65, 0x66, 0x69, 0x6E, 0x65, 0x20, 0x59, 0x20, 0x32,
-                0x69, 0x6E, 0x74, 0x20, 0x79, 0x20, 0x3D, 0x20, 0x32, 0x3B]] := by
+      .entry 1 [0x23, 0x64, 0x65, 0x66, 0x69, 0x6E, 0x65, 0x20, 0x58, 0x20, 0x31],
+      .entry 2 [0x69, 0x6E, 0x74, 0x20, 0x78, 0x20, 0x3D, 0x20, 0x31, 0x3B],
+      .entry 3 [0x23, 0x64, 0x65, 0x66, 0x69, 0x6E, 0x65, 0x20, 0x59, 0x20, 0x32],
+      .entry 4 [0x69, 0x6E, 0x74, 0x20, 0x79, 0x20, 0x3D, 0x20, 0x32, 0x3B]] := by
   decide
 
-/-- **the full statement is false for the code as it is**: a matched node that ends with a
-newline (C preprocessor directives do) loses that newline in `push_matched_to_ret`
-(`matched.lines()` joined by `\n`), so the following line is glued to it and every later entry
-of the group is numbered one too low. Confirmed on the real CLI; KNOWN_FINDINGS
-`text-report:match-ends-with-newline`. -/
-theorem prefix_report_lines_counterexample : ¬ PrefixReportFull := by
-  intro h
-  have := h witnessSrc 0 0 [(0, 12), (23, 35)] _ (by decide) witness_output
-    (.entry 2 [0x23, 0x64, 0x65, 0x66, 0x69, 0x6E, 0x65, 0x20, 0x59, 0x20, 0x32,
-               0x69, 0x6E, 0x74, 0x20, 0x79, 0x20, 0x3D, 0x20, 0x32, 0x3B]) (by simp)
-  revert this
-  simp only [GoodEntry, fileLine]
-  decide
-
-/-- **the restriction that holds, for every `-A / -B / -C`.** If no matched text ends with a newline
-or contains `\r`, every entry — through all merging of adjacent matches by `MatchMerger`,
-skipped overlapping matches and context lines — carries the text of line `num` (1-based) of the
-file, up to the `\r` of a `\r\n` terminator. Matches need not be sorted: `check_overlapping`
-either skips or (debug build) panics. -/
+/-- **the restriction that holds, for every `-A` / `-B` / `-C`.** If no matched text contains
+`\r` — it may end with a newline, as C preprocessor directives do —, every entry — through all
+merging of adjacent matches by `MatchMerger`, skipped overlapping matches and context lines —
+carries the text of line `num` (1-based) of the file, up to the `\r` of a `\r\n` terminator.
+Matches need not be sorted: `check_overlapping` either skips or (debug build) panics. -/
 theorem prefix_report_lines_partial (src : Bytes) (before after : Nat) (ms : List (Nat × Nat))
     (out : List ReportLine)
-    (hms : ∀ se ∈ ms, se.1 ≤ se.2 ∧ se.2 ≤ src.length ∧ CR ∉ slice src se.1 se.2 ∧
-      (slice src se.1 se.2).getLast? ≠ some NL)
+    (hms : ∀ se ∈ ms, se.1 ≤ se.2 ∧ se.2 ≤ src.length ∧ CR ∉ slice src se.1 se.2)
     (h : printMatchesWithPrefix src before after ms = some out) :
     ∀ x ∈ out, GoodEntry src x :=
   printMatchesWithPrefix_good src before after ms out hms h
+
+/-- the former witness is inside the theorem now: every entry printed for it is a real line -/
+theorem prefix_report_lines_witness_good :
+    ∀ x ∈ [ReportLine.entry 1 [0x23, 0x64, 0x65, 0x66, 0x69, 0x6E, 0x65, 0x20, 0x58, 0x20, 0x31],
+           .entry 2 [0x69, 0x6E, 0x74, 0x20, 0x78, 0x20, 0x3D, 0x20, 0x31, 0x3B],
+           .entry 3 [0x23, 0x64, 0x65, 0x66, 0x69, 0x6E, 0x65, 0x20, 0x59, 0x20, 0x32],
+           .entry 4 [0x69, 0x6E, 0x74, 0x20, 0x79, 0x20, 0x3D, 0x20, 0x32, 0x3B]],
+      GoodEntry witnessSrc x :=
+  prefix_report_lines_partial witnessSrc 0 0 [(0, 12), (23, 35)] _ (by decide) witness_output
+
+/-- `"a\r\r\nb"`, one match spanning both lines (0..5) -/
+def crWitnessSrc : Bytes := [0x61, 0x0D, 0x0D, 0x0A, 0x62]
+
+/-- what the code prints for it: `1:a`, `2:b` — line 1 of the file is `a\r` + terminator `\r\n` -/
+theorem crWitness_output :
+    printMatchesWithPrefix crWitnessSrc 0 0 [(0, 5)] = some [.entry 1 [0x61], .entry 2 [0x62]] := by
+  decide
+
+/-- **the full statement is still false for the code as it is**, now only for a pathological
+text: a line ending in `\r\r\n` whose `\r\n` lies inside a matched node loses *both* `\r`
+(`matched.lines()` in `push_matched_to_ret` strips one, the final `ret.lines()` the next),
+although the first `\r` is content of the line. Confirmed on the real CLI; KNOWN_FINDINGS
+`text-report:cr-cr-lf-in-match`. (The former witness, a match ending with a newline, was repaired
+in /repo 0b29009: `witness_output`, `prefix_report_lines_witness_good`.) -/
+theorem prefix_report_lines_counterexample : ¬ PrefixReportFull := by
+  intro h
+  have := h crWitnessSrc 0 0 [(0, 5)] _ (by decide) crWitness_output (.entry 1 [0x61]) (by simp)
+  revert this
+  simp only [GoodEntry, fileLine]
+  decide
 
 /-- non-vacuity: `"a\r\nb\nb\na a\nc"`, three plain matches (`a` on line 1, two on line 4) and
 `-A 1`: two groups with a separator, the second one merged from two matches; line 1 is reported
